@@ -61,6 +61,10 @@ PAYLOADS = [
     # a sibling of the dataset directory whose name STARTS WITH the dataset directory's name: inside for a string-prefix test,
     # outside for the file system
     ('path', '../../../{rootname}_q/r2d2'), ('path', '../../../{rootname}.bak/x'), ('path', '../../../{rootname}2'),
+    # compatibility characters that NFKC turns into '.' and '/' (U+FF0E, U+FF0F), the one-dot leader and the fraction / division
+    # slashes: one path component as written, a way out once normalised
+    ('path', '\uff0e\uff0e\uff0f\uff0e\uff0e\uff0f\uff0e\uff0e\uff0fescaped_x'), ('path', '\uff0e\uff0e\uff0fescaped_y'),
+    ('path', '\u2024\u2024\uff0fescaped_z'), ('path', '..\u2215escaped_w'), ('path', '\uff0e\uff0e\uff3cescaped_v'),
     ('path', '../../../../{canary_rel}'), ('path', '/{canary_abs}'), ('path', '..'), ('path', 'a/../../b'),
     ('num', '1e400'), ('num', '-0'), ('num', '007'), ('num', '99999999999999999999999'), ('num', 'nan'), ('num', '0x10'),
     ('misc', '# kapture format: 1.0'), ('misc', '# kapture format: 1.2'), ('misc', '# kapture format: 0.9'),
